@@ -23,14 +23,15 @@ RULE = ('Evaluation = one interleaving / one thread schedule of 2-4 chunks, each
         'restricted to ampycloud code objects hand control to a seeded scheduler that lets exactly one thread '
         'proceed to its next ampycloud source line - in half of the schedules also to its next call / return from a C function, so that the gap between two library calls on one line can be pre-empted - (PCT-style priorities with d random change points, a '
         'random-walk mode switching with probability p at every yield point, and a mode that demotes the running thread right after a library call returned to ampycloud code, and atomicity probes that park one thread at a static yield site - a source line or the return of a given library call into a given ampycloud line, each distinct site weighted equally - until all other threads have finished, or - two-site probes, swept systematically over the site pairs of the small functions - until a second thread stops at another site of the same function, after which the first one runs to completion), so a schedule is a replayable sequence of '
-        'thread choices. Evidence lists line events, context switches, distinct schedule hashes and the function '
+        'thread choices; plus pairs of large chunks (> 2000 hits in one slice: size-dependent paths), where every ampycloud function seen calling an API that touches process-global state (global RNG, warnings filters, NumPy error state, pandas options, locale, environment) gets all ordered two-site probes around those calls. Evidence lists line events, context switches, distinct schedule hashes and the function '
         'pairs observed overlapping. Non-trivial = the chunks differ in data or parameters; distinct = '
         'interleaving index resp. schedule hash.')
-ASSUMPTIONS = ['no pre-emption inside C extensions (numpy / scikit-learn calls are atomic steps of a schedule)',
+ASSUMPTIONS = ['calls from ampycloud code into process-global state (global NumPy/Python RNG, warnings filters, NumPy error state, pandas options, locale, environment) are watched for and only GUIDE the two-site probes (counter global_state_api_call_sites, 0 on the pinned tree); they are never a verdict by themselves',
+               'no pre-emption inside C extensions (numpy / scikit-learn calls are atomic steps of a schedule)',
                'the reference of a chunk is its digest when processed alone in a fresh process with the same global parameters installed']
 REQUIRED = ['pair_interleavings_252', 'pair_same_data_different_prms', 'pair_shared_list_objects', 'global_changed_between_stages', 'references_from_fresh_processes', 'triple_interleavings', 'threads_pct', 'threads_random_walk', 'threads_call_level', 'threads_call_level',
-            'two_threads_in_same_stage', 'two_threads_in_ncomp_from_gmm', 'poisoned_global', 'distinct_schedules_100']
-SIZES = {'quick': dict(pairs=4, triples=100, sched=320), 'thorough': dict(pairs=40, triples=1680 * 5, sched=6000)}
+            'two_threads_in_same_stage', 'two_threads_in_ncomp_from_gmm', 'threads_big_chunks_gt2000_hits', 'poisoned_global', 'distinct_schedules_100']
+SIZES = {'quick': dict(pairs=4, triples=100, sched=320, big=8, big_n=11), 'thorough': dict(pairs=40, triples=1680 * 5, sched=6000, big=16, big_n=40)}
 EXHAUSTIVE = {'quick': 'all C(10,5)=252 stage interleavings of two chunks, for each of the pairs (interleaving part only)',
               'thorough': 'all 252 stage interleavings of two chunks per pair and all 1680 coarse interleavings of three chunks per triple'}
 TIMEOUT = {'quick': 1500, 'thorough': 7000}
@@ -50,11 +51,15 @@ def plan(tier, seed):
     per = 16
     for j in range(z['sched'] // per):
         out.append({'fam': 'threads', 'lo': j * per, 'n': per, 's': seed, 'i': 2000 + j})
+    for j in range(z['big']):
+        # two large chunks (> 2000 hits in one slice): size-dependent code paths, and two-site probes aimed at the
+        # ampycloud functions seen calling an API that touches process-global state
+        out.append({'fam': 'threads_global', 'lo': 100000 + j * 64, 'n': z['big_n'], 's': seed, 'i': 3000 + j, 'shard': j, 'nshards': z['big']})
     return out
 
 
 def weight(d):
-    return {'pair': 20.0, 'triple': 18.0, 'threads': 12.0}[d['fam']]
+    return {'pair': 20.0, 'triple': 18.0, 'threads': 12.0, 'threads_global': 30.0}[d['fam']]
 
 
 # ------------------------------------------------------------------------------------------------
@@ -102,6 +107,24 @@ def make_cases(seed, key, n, same_data=False):
             first = cases[0]['call']
             for kk in ('BASE_LVL_HEIGHT_PERC', 'BASE_LVL_LOOKBACK_PERC', 'MAX_HITS_OKTA0', 'LOWESS', 'GROUPING_PRMS', 'MSA'):
                 call[kk] = copy.deepcopy(first[kk])
+        cases.append({'scene': sc, 'call': call})
+    return cases
+
+
+def make_big_cases(seed, key):
+    """Two chunks of more than 2000 hits each, all in one slice / group / layer (three instruments, 12-s sampling)."""
+    rng = scenes.rng_for(seed, NUM, key, 6)
+    cases = []
+    for k in range(2):
+        base = float(rng.choice([900.0, 2400.0, 6100.0]))
+        nt = 690 + 25 * k + int(rng.integers(0, 10))
+        rows = []
+        for ci, c in enumerate(['a', 'b', 'q1']):
+            for t in range(nt):
+                rows.append([c, -12.0 * t - 0.25 * ci, float(np.round(base + 60.0 * np.sin(t / (40.0 + 9 * k)) + rng.normal(0, 25.0), 1)), 1])
+        sc = {'rows': scenes.dedupe(rows), 'names': ['a', 'b', 'q1'], 'order': 'none', 'fam': 'big'}
+        call = {'MSA': None, 'LOWESS': {'frac': [0.35, 0.6][k], 'it': 3}, 'MIN_SEP_VALS': [250.0, 1000.0], 'MIN_SEP_LIMS': [10000.0],
+                'BASE_LVL_LOOKBACK_PERC': float([100, 40][k]), 'LAYERING_PRMS': {'min_okta_to_split': 9}}
         cases.append({'scene': sc, 'call': call})
     return cases
 
@@ -415,6 +438,28 @@ class Sched:
 SITES = {}        # static yield sites discovered so far in this process: id -> hits
 
 
+def global_probe_plan():
+    """Two-site probes for every ampycloud function seen calling into process-global state (global NumPy / Python
+    RNG, warnings filters, NumPy error state, pandas options, locale, environment ...): all ordered pairs of the
+    source lines around those calls, for either thread being the parked one; earlier-then-later pairs first."""
+    out = []
+    for fn in sorted(GLOBAL_CALLERS):
+        lines = sorted(GLOBAL_CALLERS[fn])
+        sites = []
+        for x in SITES:
+            if x.startswith('line:') and site_function(x) == fn:
+                ln = int(x.rsplit(':', 1)[1])
+                if any(a - 3 <= ln <= a + 4 for a in lines):
+                    sites.append((ln, x))
+        sites = [x for _, x in sorted(sites)][:12]
+        pairs = [(a, b) for ia, a in enumerate(sites) for ib, b in enumerate(sites) if ia < ib] + \
+                [(a, b) for ia, a in enumerate(sites) for ib, b in enumerate(sites) if ia >= ib]
+        for a, b in pairs:
+            for pk in (0, 1):
+                out.append((a, b, pk))
+    return out
+
+
 def site_function(site):
     """The ampycloud function a static site belongs to."""
     kind, rest = site.split(':', 1)
@@ -435,6 +480,10 @@ def _call_cb(code, off, callable_, arg0):
     # library calls (numpy / scikit-learn / pandas) are atomic steps, the gaps between them are not
     k = getattr(_tl, 'k', None)
     s = _SCHED[0]
+    if k is not None and s is not None:
+        api = _global_api_name(callable_)
+        if api is not None:
+            GLOBAL_CALLERS.setdefault(code.co_name, {})[sys._getframe(1).f_lineno] = api
     if k is not None and s is not None and s.call_level:
         # also yield when the (Python) callee returns to ampycloud: e.g. between est.fit(X) and est.labels_
         fn = getattr(callable_, '__func__', callable_)
@@ -449,6 +498,42 @@ def _call_cb(code, off, callable_, arg0):
 
 
 _RET_CODES = set()
+GLOBAL_CALLERS = {}       # ampycloud function -> {source line: API name} of calls into process-global state
+_API = {}
+
+
+def _api_table():
+    if _API:
+        return _API
+    import locale
+    import logging
+    import pandas as pd
+    objs = {'warnings.catch_warnings': warnings.catch_warnings, 'warnings.simplefilter': warnings.simplefilter,
+            'warnings.filterwarnings': warnings.filterwarnings, 'warnings.resetwarnings': warnings.resetwarnings,
+            'numpy.seterr': np.seterr, 'numpy.errstate': np.errstate, 'numpy.set_printoptions': np.set_printoptions,
+            'numpy.printoptions': np.printoptions, 'pandas.set_option': pd.set_option, 'pandas.option_context': pd.option_context,
+            'pandas.reset_option': pd.reset_option, 'locale.setlocale': locale.setlocale, 'os.putenv': os.putenv,
+            'os.chdir': os.chdir, 'logging.disable': logging.disable, 'logging.basicConfig': logging.basicConfig,
+            'sys.setrecursionlimit': sys.setrecursionlimit, 'time.tzset': getattr(time, 'tzset', None)}
+    for k, v in objs.items():
+        if v is not None:
+            _API[id(v)] = k
+    return _API
+
+
+def _global_api_name(c):
+    self_ = getattr(c, '__self__', None)
+    if self_ is not None:
+        if self_ is np.random.mtrand._rand:
+            return 'numpy.random.' + getattr(c, '__name__', '?')
+        if self_ is random._inst:
+            return 'random.' + getattr(c, '__name__', '?')
+        if self_ is os.environ and getattr(c, '__name__', '') in ('__setitem__', '__delitem__', 'update', 'pop', 'setdefault', 'clear'):
+            return 'os.environ.' + c.__name__
+    try:
+        return _api_table().get(id(c))
+    except Exception:      # noqa
+        return None
 
 
 def _ret_cb(code, off, retval):
@@ -493,8 +578,13 @@ def check_threads(desc):
     parked_sites = set()
     warnings.simplefilter('ignore')          # process-wide: catch_warnings is not thread-safe
     key = desc['i']
-    nthreads = 2 + key % 3
-    cases = make_cases(desc['s'], 500 + key, nthreads, same_data=(key % 4 == 1))
+    big = desc['fam'] == 'threads_global'
+    nthreads = 2 if big else 2 + key % 3
+    cases = make_big_cases(desc['s'], key) if big else make_cases(desc['s'], 500 + key, nthreads, same_data=(key % 4 == 1))
+    n_disc = 3 if big else 6
+    gplan = None
+    if big:
+        tags.add('threads_big_chunks_gt2000_hits')
     gtag = install_global(key, cases)
     tags.add(gtag)
     sample = None
@@ -509,7 +599,7 @@ def check_threads(desc):
             mode = 'pct' if sidx % 2 == 0 else 'walk'
             if sidx % 4 == 3:
                 mode = 'ret'
-            park = j >= 6 and len(SITES) > 0          # the first schedules of a worker discover the static sites
+            park = j >= n_disc and len(SITES) > 0          # the first schedules of a worker discover the static sites
             if park:
                 mode = 'park'
             sc = Sched(desc['s'] * 1000003 + sidx, nthreads, mode, depth=2 + sidx % 4,
@@ -538,6 +628,18 @@ def check_threads(desc):
                         sc.park_site = fs[r_ % len(fs)]
                         sc.park2_site = fs[(r_ // len(fs) + r_) % len(fs)]
                         tags.add('threads_two_site_probe')
+                if big:
+                    if gplan is None:
+                        gplan = global_probe_plan()
+                        counters['global_state_api_call_sites'] = sum(len(v) for v in GLOBAL_CALLERS.values())
+                        if GLOBAL_CALLERS:
+                            tags.add('ampycloud_calls_global_state_api')
+                    if gplan:
+                        q = desc['shard'] + (j - n_disc) * desc['nshards']
+                        if q >= len(gplan):
+                            break
+                        sc.park_site, sc.park2_site, sc.park_k = gplan[q]
+                        tags.add('threads_global_state_api_probe')
                 parked_sites.add(sc.park_site)
             if sc.call_level:
                 sc.change = set(sc.rng.sample(range(1, 9000 * nthreads), 2 + sidx % 6)) if mode == 'pct' else set()
@@ -590,7 +692,8 @@ def check_threads(desc):
                 elif out[k] != ref[k]:
                     oracles.V(viol, 'C13', 'chunk result under threads differs from processing it alone', thread=k,
                               schedule_seed=sidx, mode=mode, n_threads=nthreads, switches=sc.switches,
-                              global_mode=gtag, gmm_kwargs=[c['call']['LAYERING_PRMS']['gmm_kwargs'] for c in cases])
+                              global_mode=gtag, gmm_kwargs=[c['call'].get('LAYERING_PRMS', {}).get('gmm_kwargs') for c in cases],
+                              park_site=sc.park_site, park2_site=sc.park2_site)
             if sample is None:
                 sample = {'workload': 'threads', 'n_threads': nthreads, 'mode': mode, 'line_events': sc.steps,
                           'context_switches': sc.switches, 'schedule_hash': hashes[-1],
@@ -613,7 +716,7 @@ def check_threads(desc):
 
 
 def check(desc):
-    if desc['fam'] == 'threads':
+    if desc['fam'] in ('threads', 'threads_global'):
         return check_threads(desc)
     return check_interleavings(desc)
 
@@ -621,7 +724,7 @@ def check(desc):
 def finalize(agg, tier, seed):
     hs = set()
     for r in agg['results'].values():
-        if r.get('desc', {}).get('fam') == 'threads':
+        if r.get('desc', {}).get('fam') in ('threads', 'threads_global'):
             hs.update(r.get('nontrivial', []))
     agg['counters']['distinct_schedule_hashes'] = len(hs)
     if len(hs) >= 100:
